@@ -13,6 +13,45 @@ theorem sum_map_set {α : Type} (f : α → Nat) : ∀ (l : List α) (i : Nat) (
     simp only [List.set_cons_succ, List.map_cons, List.sum_cons, List.getElem_cons_succ]
     omega
 
+theorem length_filter_lt {α : Type} (p : α → Bool) : ∀ (l : List α) (x : α), x ∈ l → p x = false →
+    (l.filter p).length < l.length
+  | a :: l, x, hx, hp => by
+    have hle : (l.filter p).length ≤ l.length := List.length_filter_le p l
+    rcases List.mem_cons.1 hx with rfl | hx
+    · simp only [List.filter_cons, hp, Bool.false_eq_true, if_false, List.length_cons]; omega
+    · have := length_filter_lt p l x hx hp
+      simp only [List.filter_cons]
+      split
+      · simp only [List.length_cons]; omega
+      · simp only [List.length_cons]; omega
+
+theorem sum_map_filter_le {α : Type} (f : α → Nat) (p : α → Bool) : ∀ (l : List α),
+    ((l.filter p).map f).sum ≤ (l.map f).sum
+  | [] => by simp
+  | a :: l => by
+    have := sum_map_filter_le f p l
+    simp only [List.filter_cons]
+    split <;> simp only [List.map_cons, List.sum_cons] <;> omega
+
+theorem sum_map_map_le {α : Type} (f : α → Nat) (g : α → α) (hle : ∀ x, f (g x) ≤ f x) :
+    ∀ (l : List α), ((l.map g).map f).sum ≤ (l.map f).sum
+  | [] => by simp
+  | a :: l => by
+    have := sum_map_map_le f g hle l
+    have := hle a
+    simp only [List.map_cons, List.sum_cons]; omega
+
+theorem sum_map_map_lt {α : Type} (f : α → Nat) (g : α → α) (hle : ∀ x, f (g x) ≤ f x) :
+    ∀ (l : List α) (x : α), x ∈ l → f (g x) < f x → ((l.map g).map f).sum < (l.map f).sum
+  | a :: l, x, hx, hlt => by
+    have h1 := sum_map_map_le f g hle l
+    have h2 := hle a
+    simp only [List.map_cons, List.sum_cons]
+    rcases List.mem_cons.1 hx with rfl | hx
+    · omega
+    · have := sum_map_map_lt f g hle l x hx hlt
+      omega
+
 end IrVerif.PassInfra
 
 namespace IrVerif.PassInfra.CApi
